@@ -261,10 +261,13 @@ CLAIMS = {
                 "contributes nothing. The remaining clause (text an ordinary alternative consumed and gave back contributes nothing) "
                 "is FALSE of the code: a failing sequence restores only the text position; the engine model has exactly this semantics "
                 "and reproduces every leak opcode for opcode (peg stream). It is the known finding C03-emit-then-fail-leak, keyed by "
-                "the grammar rule where the model's journal sees a sequence fail after writing code; a leak at any other rule is "
-                "reported. Oracle on the implementation: whole input vs Matched alone from the same seed and prior state — value, "
+                "the grammar rule where the model's journal sees a sequence fail after writing code — after the repairs of every other site "
+                "(literals, index chains, the CoC count, array calls) the only listed rule is `sub` inside an st command; a leak at any other "
+                "rule is reported. memo_hit_same_flags / memo_other_flags_miss: a cached parse result answers only under the parse flags it "
+                "was obtained under; lineBreakBefore_spec: the separator predicate is true exactly when a line feed stands among the blanks "
+                "just before the offset. Oracle on the implementation: whole input vs Matched alone from the same seed and prior state — value, "
                 "process text, variables, final seed, Matched consumed entirely — over <valid program><tail> with 100 tails x flags. "
-                "Nine parser/annotation defects found this way were repaired.",
+                "Thirteen parser/annotation defects found this way were repaired.",
         "note": TB + "Prefix-closure of the grammar (Matched alone parses to the same offset) is validated by the oracle, not proved: PEG "
                      "look-aheads read beyond the match. The leak class itself is architecture-rooted (actions emit during parsing, "
                      "packrat hits replay results without re-running actions) and is recorded, not repaired; individual sites that "
